@@ -83,7 +83,7 @@ fn plant(env: &Env, r: &mut Rng, out: &mut Out, old: &TreeM, new: &TreeM) {
 
 pub fn run(cfg: &Cfg, out: &mut Out) {
     let mut r = cfg.rng(25);
-    let workspaces = cfg.n(90, 1000);
+    let workspaces = cfg.n(200, 1500);
     let _ = (CONTENTS, PATHS);
     for _ in 0..workspaces {
         let mut env = Env::new();
